@@ -172,6 +172,7 @@ def run(ctx):
     length_rules(ctx, w)
     localpart_rules(ctx, w)
     split_agreement(ctx, w, "C10.split-agreement")
+    forms_rules(ctx, w, types)
     # room version ids: each known variant <-> exactly its canonical literal (stored byte-for-byte otherwise)
     T.version_rules(ctx, w, [], rule="C10.room-version")
     if ctx.tier == "thorough":
@@ -449,6 +450,40 @@ def localpart_rules(ctx, w):
                       bad_msg=(why or "!an accepting path has neither a localpart check nor a NUL test")[1:] + ": an identifier with a NUL byte (or a second "
                               "colon-delimited part) in its localpart is accepted, e.g. `#ru\\0ma:example.com`")
     ctx.floor("accepting paths examined for the localpart rule", n, 5)
+
+
+def forms_rules(ctx, w, types):
+    """C10.forms: the borrowed and the owned form of an identifier hash, compare and order as their string form."""
+    ctx.rule("C10.forms", "Hash / PartialEq / Ord / PartialOrd of every identifier type and of its Owned form end in the corresponding operation on `str` "
+                          "(`as_str()`), directly or through another impl of the same type: a map keyed by OwnedX can be queried with &X (Borrow contract), "
+                          "and equal strings are equal identifiers in every form")
+    TRAITS = {"core::hash::Hash": "hash", "core::cmp::PartialEq": "eq", "core::cmp::Ord": "cmp", "core::cmp::PartialOrd": "partial_cmp"}
+    n = 0
+    for t, tdisp in sorted(types.items()):
+        mod, name = tdisp.rsplit("::", 1)
+        base = name.split("<")[0]
+        for form in (name, "Owned" + name):
+            for tr, meth in TRAITS.items():
+                fn = w.lookup(f"<{mod}::{form} as {tr}>::{meth}")
+                if fn is None or "body" not in fn:
+                    continue
+                n += 1
+                ops = []
+                for body in M.all_bodies(fn):
+                    for _, c in M.calls(body):
+                        cn = M.callee_name(c)
+                        if re.search(r"(Hash|PartialEq|Ord|PartialOrd)(<[^>]*>)?( for [^>]*)?>::(hash|eq|ne|cmp|partial_cmp|lt|le|gt|ge)$", cn) or \
+                           re.search(r"impl core::(hash::Hash|cmp::\w+)(<[^>]*>)? for .*>::(hash|eq|ne|cmp|partial_cmp)$", cn):
+                            ops.append((cn, (c.get("fnargs") or ["?"])[0]))
+                bad = [(cn, a) for cn, a in ops if a not in ("str", "&str") and not re.search(r"::(Owned)?" + re.escape(base) + r"\b", cn.split(" as ")[0])]
+                key = f"C10.forms:{short_ty(t) if form == name else 'Owned' + short_ty(t)}:{tr.rsplit('::', 1)[-1]}"
+                if not ops:
+                    ctx.unrecognised("C10.forms", key, w.where(fn), "no hash/comparison operation found in the impl")
+                else:
+                    ctx.check(not bad, "C10.forms", key, w.where(fn),
+                              bad_msg=f"{meth} works on {[a for _, a in bad]} instead of the string form ({bad[0][0][:90] if bad else ''}): e.g. `[u8]` and `str` "
+                                      f"hash differently, so the owned and borrowed forms of one identifier disagree")
+    ctx.floor("identifier Hash/Eq/Ord impls examined", n, 100)
 
 
 def length_rules(ctx, w):
